@@ -3,7 +3,9 @@
 #include "hist_model.hpp"
 
 static const char* STRSRC = nullptr;   // a long non-zero string for strdup/strndup
-static void init_strsrc() { static char buf[70000]; for (size_t i = 0; i < sizeof buf - 1; i++) buf[i] = (char)('a' + (i * 7 + i / 13) % 26); buf[sizeof buf - 1] = 0; STRSRC = buf; }
+static unsigned short WSRC[35000];         // a long non-zero 16-bit string for wcsdup
+static const char* const RPATHS[3] = { "/", "/usr/include", "/usr/lib/../include" };
+static void init_strsrc() { for (size_t i = 0; i < 34999; i++) WSRC[i] = (unsigned short)(0x100 + (i * 31 + i / 7) % 60000); WSRC[34999] = 0; static char buf[70000]; for (size_t i = 0; i < sizeof buf - 1; i++) buf[i] = (char)('a' + (i * 7 + i / 13) % 26); buf[sizeof buf - 1] = 0; STRSRC = buf; }
 
 // Allocation dispatch. `valid` = false when the op does not denote a call we can make (unknown fn, bad heap, precondition).
 uint8_t* Exec::call_alloc(const std::string& f0, int h, size_t n, size_t c, size_t a, size_t o, bool& zeroing, size_t& req, size_t& eff_a, size_t& eff_o, bool& valid) {
@@ -35,6 +37,16 @@ uint8_t* Exec::call_alloc(const std::string& f0, int h, size_t n, size_t c, size
                                    if (p && memcmp(p, src, n + 1) != 0) fail_now("strdup-contents", "op#%ld strdup(len=%zu) copy differs", opi, n); }
   else if (f == "strndup")       { if (n >= 60000) n = 59999; req = n + 1; p = hp ? mi_heap_strndup(hp, STRSRC, n) : mi_strndup(STRSRC, n);
                                    if (p && (memcmp(p, STRSRC, n) != 0 || ((char*)p)[n] != 0)) fail_now("strndup-contents", "op#%ld strndup(n=%zu) copy differs", opi, n); }
+  else if (f == "mbsdup")        { if (hp) { valid = false; return nullptr; } if (n >= 69999) n = 69998; const char* src = STRSRC + (69999 - n); req = n + 1; p = mi_mbsdup((const unsigned char*)src);
+                                   if (p && memcmp(p, src, n + 1) != 0) fail_now("strdup-contents", "op#%ld mbsdup(len=%zu) copy differs", opi, n); }
+  else if (f == "wcsdup")        { if (hp) { valid = false; return nullptr; } size_t k = n / 2; if (k >= 34999) k = 34998; const unsigned short* src = WSRC + (34999 - k); req = (k + 1) * 2; p = mi_wcsdup(src);
+                                   if (p && memcmp(p, src, req) != 0) fail_now("strdup-contents", "op#%ld wcsdup(len=%zu) copy differs", opi, k); }
+  else if (f == "dupenv")        { if (hp) { valid = false; return nullptr; } if (n > 8000) n = 8000; const char* src = STRSRC + (69999 - n); setenv("VF_DUPENV", src, 1); char* q = (char*)0x5a5a; size_t sz = 12345; int rc = mi_dupenv_s(&q, &sz, "VF_DUPENV"); req = n + 1;
+                                   if (rc != 0) { if (!allow_null && m.heaps[m.def].arena < 0) fail_now("dupenv-rc", "op#%ld mi_dupenv_s returned %d", opi, rc); q = nullptr; }
+                                   else if (q == nullptr || q == (char*)0x5a5a || sz != n || memcmp(q, src, n + 1) != 0) fail_now("strdup-contents", "op#%ld mi_dupenv_s(len=%zu): buf=%p size=%zu or copy differs", opi, n, (void*)q, sz);
+                                   p = q; }
+  else if (f == "realpath")      { const char* path = RPATHS[n % 3]; char want[4200]; if (!realpath(path, want)) { valid = false; return nullptr; } req = strlen(want) + 1; p = hp ? mi_heap_realpath(hp, path, nullptr) : mi_realpath(path, nullptr);
+                                   if (p && memcmp(p, want, req) != 0) fail_now("strdup-contents", "op#%ld realpath(%s) copy differs", opi, path); }
   else if (f == "new_nothrow")   { if (hp) { valid = false; return nullptr; } p = mi_new_nothrow(n); }
   else if (f == "new_aligned_nothrow") { if (hp) { valid = false; return nullptr; } eff_a = a; p = mi_new_aligned_nothrow(n, a); }
   else if (f == "new")           { if (n > MiB) { valid = false; return nullptr; } p = hp ? mi_heap_alloc_new(hp, n) : mi_new(n); }
@@ -81,6 +93,7 @@ void Exec::op_alloc(const Op& op) {
 void Exec::free_slot(int s, const std::string& f0) {
   Blk& b = m.slots[s]; if (!b.live) return;
   if (b.stranded) { count(C_EXCLUDED); return; }   // known finding F5: a local free of such a block crashes
+  if (b.deferred && !in_deferred_cb) return;        // this block belongs to the deferred-free callback now
   if (b.foreign) flag(F_FOREIGN_FREED);
   verify_blk(s, "before-free");
   uint8_t* p = b.p; size_t n = b.n, a = (b.o == 0 ? b.a : 1); std::string f = f0;
@@ -104,6 +117,7 @@ void Exec::op_free(const Op& op) { int s = (int)op.num("s"); if (s < 0 || s >= N
 
 void Exec::op_expand(const Op& op) {
   int s = (int)op.num("s"); if (s < 0 || s >= NSLOTS || !m.slots[s].live) return; Blk& b = m.slots[s]; size_t n2 = op.num("n");
+  if (b.deferred) return;
   void* q = mi_expand(b.p, n2); flag(F_EXPAND);
   if (q != nullptr && q != b.p) fail_now("expand-moved", "op#%ld mi_expand(%p,%zu) returned a different pointer %p", opi, b.p, n2, q);
 #if !defined(VF_PADDING)
@@ -117,6 +131,7 @@ void Exec::op_expand(const Op& op) {
 void Exec::op_realloc(const Op& op) {
   int s = (int)op.num("s"); if (s < 0 || s >= NSLOTS) return; Blk& b = m.slots[s]; if (!b.live) return;
   if (b.stranded) { count(C_EXCLUDED); return; }
+  if (b.deferred) return;   // (the callback may run inside this very call and free the block)
   std::string f = op.str("f", "realloc"); int h = (int)op.num("h", 0); mi_heap_t* hp = nullptr;
   if (h > 0) { hp = heap_of(h); if (!hp) return; }
   size_t n = op.num("n"), c = op.num("c", 1), a = op.num("a", 0), o = op.num("o", 0);
@@ -192,4 +207,20 @@ void Exec::op_realloc(const Op& op) {
   if (align_known) { b.a = ea; b.o = eo; } else if (qq != p) { b.a = 1; b.o = 0; }
   model_fill(s);
   verify_neighbours((uintptr_t)qq);
+}
+
+// ---- deferred free (mi_register_deferred_free): the program parks blocks and the allocator calls back "when it is a good time" -- from inside a
+// generic allocation or a collect of this thread -- and the callback frees them there. The model holds the blocks live until the callback ran.
+static void hist_deferred_cb(bool force, unsigned long long heartbeat, void* arg) { (void)force; (void)heartbeat; Exec* ex = (Exec*)arg; if (ex && ex == g_exec) ex->run_deferred(); }
+void Exec::run_deferred() {
+  if (in_deferred_cb || deferred.empty() || !pthread_equal(pthread_self(), defer_thread)) return;   // (helper threads of talloc/tfree have their own heaps: the program frees on its main thread)
+  in_deferred_cb = true; count(C_DEFER_CALLS);
+  std::vector<std::pair<int, uint8_t*>> todo; todo.swap(deferred);
+  for (auto& e : todo) { Blk& b = m.slots[e.first]; if (!b.live || b.p != e.second || !b.deferred) continue; free_slot(e.first, "free"); if (!b.live) { flag(F_DEFERRED_FREE); b.deferred = false; } }
+  in_deferred_cb = false;
+}
+void Exec::op_defer(const Op& op) {
+  int s0 = (int)op.num("s"), k = (int)op.num("k", 1), step = (int)op.num("step", 1), ph = (int)op.num("ph", 0); if (step < 1) step = 1;
+  if (!defer_registered) { defer_thread = pthread_self(); mi_register_deferred_free(&hist_deferred_cb, this); defer_registered = true; }
+  for (int i = ph; i < k; i += step) { int s = s0 + i; if (s < 0 || s >= NSLOTS) break; Blk& b = m.slots[s]; if (!b.live || b.stranded || b.deferred || b.foreign || b.home < 1) continue; b.deferred = true; deferred.push_back({ s, b.p }); }
 }
